@@ -48,4 +48,5 @@ def main(tier):
     chk.run("R-TEXTPAIR", B.textpair, cx.repo, cx.templates, cx.cpp, floor=4)
     chk.run("R-SWITCHFIT", B.switchfit, cx.repo, floor=1)
     chk.run("R-CHOICETYPE", B.choicetype, cx.repo, cx.cpp, floor=2)
+    chk.run("R-STORAGEIFACE", C.storageiface, cx.cpp, cx.templates, floor=12)
     return chk.finish()
